@@ -450,6 +450,21 @@ class Interp:
                             return x[sel_]
                     elif k.arg == "key" and isinstance(self.ev(k.value), Native):
                         keyf = self.ev(k.value).fn          # key=ns.get_name: a modelled callable
+                    elif k.arg == "key" and isinstance(k.value, ast.Name) and k.value.id in (self.funcs or {}):
+                        fname_ = k.value.id             # key=<an interpreted function of the module / a local helper>
+
+                        def keyf(x, fname_=fname_):
+                            saved = self.env
+                            self.env = dict(saved)
+                            self.env["__sort_item"] = x
+                            try:
+                                v = self.ev(ast.Call(func=ast.Name(id=fname_, ctx=ast.Load()),
+                                                     args=[ast.Name(id="__sort_item", ctx=ast.Load())], keywords=[]))
+                            finally:
+                                self.env = saved
+                            if v is U:
+                                raise Unknowable("sort key")
+                            return v
                     elif k.arg == "key" and isinstance(k.value, ast.Lambda) and len(k.value.args.args) == 1 and not k.value.args.defaults:
                         lam = k.value
 
@@ -731,6 +746,17 @@ class Interp:
                         break
                     if r == "exit":
                         return "exit"
+                continue
+            if isinstance(st, ast.With) and self.exact and len(st.items) == 1:
+                # `with <modelled resource> as name:` -- the resource is a model value the rule supplies (e.g. an in-memory file)
+                v = self.ev(st.items[0].context_expr)
+                if v is UNKNOWN:
+                    raise Unknowable(f"with at L{st.lineno}")
+                if st.items[0].optional_vars is not None:
+                    self._store(st.items[0].optional_vars, v)
+                r = self.run(st.body)
+                if r:
+                    return r
                 continue
             # anything else (while, with, try, match, delete ...): whatever it assigns is unknown
             if self.exact:
